@@ -69,9 +69,10 @@ WITS = {"stale": True, "replaced": True, "failadd": True, "drift": None, "starve
         "panic": None, "unconverged": None}
 
 
-def _mc(ctx, module, cfg, timeout, workers, extra=(), tag=None):
+def _mc(ctx, module, cfg, timeout, workers, extra=(), tag=None, heap="4g"):
     d = ctx.spec_scratch(SUB)
-    return ctx.tlc(d, module, cfg, timeout, workers=workers, extra=list(extra), tag=tag)
+    # bounded heap: several TLC instances run side by side (and other checks share the machine)
+    return ctx.tlc(d, module, cfg, timeout, workers=workers, extra=list(extra), tag=tag, jvm=["-Xmx" + heap])
 
 
 def _parallel(jobs, width):
@@ -123,10 +124,10 @@ def tlc_stage(ctx):
         n = num if cfg not in ("Sim_blk.cfg",) else max(10, num // 6)
         jobs.append((cfg, (lambda c=cfg, n=n, k=k: _mc(ctx, SIM, c, 300 if q else 1500, 1,
                                                        ["-simulate", "num=%d" % n, "-depth", "70", "-seed", str(ctx.seed * 100 + k)],
-                                                       tag="sim-" + c.replace(".cfg", "")))))
+                                                       tag="sim-" + c.replace(".cfg", ""), heap="2g"))))
     for kind in WITS:
         cfg = "Wit_%s.cfg" % kind
-        jobs.append((cfg, (lambda c=cfg: _mc(ctx, SIM, c, 600, 2, tag="wit-" + c.replace(".cfg", "")))))
+        jobs.append((cfg, (lambda c=cfg: _mc(ctx, SIM, c, 600, 2, tag="wit-" + c.replace(".cfg", ""), heap="2g"))))
     rs = _parallel(jobs, 5 if q else 3)
 
     # ---- exhaustive checks
